@@ -109,7 +109,10 @@ def _extract_model(ctx, fq: str) -> T.Dict[str, T.Any]:
                     else:
                         env2[st.target.id] = item
                     before = len(steps)
-                    run(st.body, env2)
+                    try:
+                        run(st.body, env2)
+                    except _LoopContinue:
+                        pass
                     if is_table and len(steps) == before:
                         info["exempt"].add(item[0])
                 continue
@@ -120,6 +123,8 @@ def _extract_model(ctx, fq: str) -> T.Dict[str, T.Any]:
                     raise AnalysisError(f"{fq}: guard `{unparse(st.test)[:60]}` is not a constant test on the table character")
                 run(st.body if cond else st.orelse, env)
                 continue
+            if isinstance(st, ast.Continue):
+                raise _LoopContinue()
             if isinstance(st, ast.Return):
                 v = st.value
                 ctx.require(isinstance(v, ast.Call) and unparse(v.func) == "re.compile", f"{fq}: does not return re.compile(...)")
@@ -138,6 +143,10 @@ def _extract_model(ctx, fq: str) -> T.Dict[str, T.Any]:
     ctx.require(info["final"] is not None and info["compile"] is not None, f"{fq}: escaped text does not reach _replace_pattern_parts / re.compile")
     info["steps"] = steps
     return info
+
+
+class _LoopContinue(Exception):
+    pass
 
 
 def _fold_guard(prog, fn, test: ast.AST, env: T.Dict[str, T.Any], depth: int = 0) -> T.Any:
